@@ -36,6 +36,7 @@ type rowA struct {
 type rowB struct {
 	Key   uint64
 	Place string `akita_data:"location"`
+	Dst   string `akita_data:"location"`
 	Note  string `akita_data:"ignore"`
 	Small int8
 	U8    uint8
@@ -67,18 +68,18 @@ type recCase struct {
 	Decisions []int   `json:"decisions,omitempty"`
 }
 
-var hostile = []string{"", "plain", "it's", `"double"`, "semi;colon", "unicode é漢🙂", "percent%s", "new\nline", "back\\slash", "NULL", "--comment", "x' OR '1'='1"}
+var hostile = []string{"", "plain", "0042", "1e3", "007", "12", "012", " 5", "0x10", "1.0", "-0", "+7", "NaN", "9223372036854775808", "it's", `"double"`, "semi;colon", "unicode é漢🙂", "percent%s", "new\nline", "back\\slash", "NULL", "--comment", "x' OR '1'='1"}
 
 func mkRow(table int, n int, seed uint64) any {
 	r := kit.NewRand(seed)
 	s := hostile[r.Intn(len(hostile))]
-	locs := []string{"GPU[0].Core", "GPU[1].L2", "it's.here", "漢.Port", ""}
+	locs := []string{"GPU[0].Core", "GPU[1].L2", "it's.here", "漢.Port", "", "12", "012", "007", "1e3", "7"}
 
 	switch table {
 	case 0:
 		return rowA{ID: []int{n, -n, 1 << 40, -(1 << 62)}[r.Intn(4)] + n, Name: s, Val: []float64{0, 1.5, -2.25e300, 1e-300}[r.Intn(4)], Flag: r.Bool()}
 	case 1:
-		return rowB{Key: []uint64{0, 1, 1 << 40, 1<<63 - 1 - uint64(n), 1<<63 - 1 - uint64(n), 1<<64 - 1 - uint64(n)}[r.Intn(5+btoi(r.Chance(1, 8)))] + uint64(n), Place: locs[r.Intn(len(locs))], Note: "ignored " + s, Small: int8(r.Intn(256) - 128), U8: uint8(r.Intn(256)), Idx: int32(r.Intn(5))}
+		return rowB{Key: []uint64{0, 1, 1 << 40, 1<<63 - 1 - uint64(n), 1<<63 - 1 - uint64(n), 1<<64 - 1 - uint64(n)}[r.Intn(5+btoi(r.Chance(1, 8)))] + uint64(n), Place: locs[r.Intn(len(locs))], Dst: locs[r.Intn(len(locs))], Note: "ignored " + s, Small: int8(r.Intn(256) - 128), U8: uint8(r.Intn(256)), Idx: int32(r.Intn(5))}
 	default:
 		return rowC{S: s, N: []int64{0, -1, 1<<63 - 1, -(1 << 63)}[r.Intn(4)], Loc: locs[r.Intn(len(locs))], F32: float32(r.Intn(100)) / 4, U16: uint16(r.Intn(65536)), Uniq: n}
 	}
@@ -286,7 +287,7 @@ func execC35(c recCase, env *kit.Env) kit.Outcome {
 	}
 
 	queries := []string{
-		"SELECT ID, Name, Val, Flag FROM ta", "SELECT Key, Place, Small, U8, Idx FROM tb", "SELECT S, N, Loc, F32, U16, Uniq FROM tc",
+		"SELECT ID, Name, Val, Flag FROM ta", "SELECT Key, Place, Dst, Small, U8, Idx FROM tb", "SELECT S, N, Loc, F32, U16, Uniq FROM tc",
 	}
 
 	for t, q := range queries {
@@ -307,14 +308,10 @@ func execC35(c recCase, env *kit.Env) kit.Outcome {
 			case 1:
 				var b rowB
 
-				var loc int64
+				var loc, dst any
 
-				_ = rows.Scan(&b.Key, &loc, &b.Small, &b.U8, &b.Idx)
-				b.Place = locByID[loc]
-
-				if _, ok := locByID[loc]; !ok {
-					b.Place = fmt.Sprintf("<dangling location id %d>", loc)
-				}
+				_ = rows.Scan(&b.Key, &loc, &dst, &b.Small, &b.U8, &b.Idx)
+				b.Place, b.Dst = resolveLoc(locByID, loc), resolveLoc(locByID, dst)
 
 				got = append(got, canon(b))
 			default:
@@ -372,6 +369,21 @@ func execC35(c recCase, env *kit.Env) kit.Outcome {
 	return out
 }
 
+// resolveLoc maps what a location column holds back to the interned string.
+func resolveLoc(locByID map[int64]string, v any) string {
+	id, isInt := v.(int64)
+	if !isInt {
+		return fmt.Sprintf("<location column holds %T %v instead of an ID>", v, v)
+	}
+
+	l, ok := locByID[id]
+	if !ok {
+		return fmt.Sprintf("<dangling location id %d>", id)
+	}
+
+	return l
+}
+
 func btoi(b bool) int {
 	if b {
 		return 1
@@ -386,7 +398,7 @@ func canon(row any) string {
 	case rowA:
 		return fmt.Sprintf("A|%d|%q|%v|%v", r.ID, r.Name, r.Val, r.Flag)
 	case rowB:
-		return fmt.Sprintf("B|%d|%q|%d|%d|%d", r.Key, r.Place, r.Small, r.U8, r.Idx)
+		return fmt.Sprintf("B|%d|%q|%q|%d|%d|%d", r.Key, r.Place, r.Dst, r.Small, r.U8, r.Idx)
 	case rowC:
 		return fmt.Sprintf("C|%q|%d|%q|%v|%d|%d", r.S, r.N, r.Loc, r.F32, r.U16, r.Uniq)
 	}
